@@ -71,8 +71,9 @@ TUPLES = {"T2": ("pos", 2), "T12": ("p", 12)}
 
 class Gen:
     def __init__(self, rng, max_priors=8, allow_arith=True, allow_array=True, allow_extra=True,
-                 allow_tuple=True, allow_pow=True, allow_fixed_obj=True):
+                 allow_tuple=True, allow_pow=True, allow_fixed_obj=True, allow_copy=True):
         self.rng = rng
+        self.allow_copy = allow_copy
         self.allow_fixed_obj = allow_fixed_obj
         self.prog = []
         self.k = 0
@@ -217,6 +218,14 @@ class Gen:
             # a prior or a constant held directly by the collection
             items.append(self.pick_prior() if rng.random() < 0.7 else None)
         refs = [({"h": i} if i is not None else _finite(rng)) for i in items]
+        if self.allow_copy and not big and rng.random() < 0.08:
+            # a copy of a component next to the original: priors of equal id are one parameter ("two copies of
+            # a model in a collection have the same prior count as a single model")
+            cands = [i for i in items if isinstance(i, str) and i.startswith("m")]
+            if cands:
+                hc = self.fresh("m")
+                self.prog.append({"op": "copy", "h": hc, "src": rng.choice(cands)})
+                refs.insert(rng.randint(0, len(refs)), {"h": hc})
         if self.allow_fixed_obj and not big and rng.random() < 0.12:
             # a component fixed to an instance of a user class (as after `model.lens = result.instance.lens`)
             cls = rng.choice(["P1", "P2", "P3"])
@@ -298,6 +307,8 @@ def run_program(prog, upto=None):
             H[st["h"]] = _mk_prior(st["kind"], st["args"])
         elif op == "model":
             H[st["h"]] = af.Model(vlib.CLASSES[st["cls"]], **{k: val(v) for k, v in st["kw"].items()})
+        elif op == "copy":
+            H[st["h"]] = H[st["src"]].copy()
         elif op == "coll_list":
             H[st["h"]] = af.Collection([val(v) for v in st["items"]])
         elif op == "coll_dict":
